@@ -4,6 +4,7 @@
 
 // C17: hardened builds detect double free, overflow and free-list corruption (secure and debug builds only)
 size_t heap_used_sum(mi_heap_t* h, size_t* pages);
+bool g_busy_pub(int slot);
 static bool local_plain_small(Block* b) {
   return b && b->prog == T->prog && b->heap >= 0 && H.heaps[b->heap].prog == T->prog && b->align == 0 && b->offset == 0 && !b->odd_origin && b->usable == b->req && b->usable >= 8 && b->usable + 8 <= 8192 && b->filled;
 }
@@ -51,6 +52,16 @@ void oracle_misuse_op(const Op& op) {
     if (op.b & 1) {   // arm: only the first free now; a later 'fire' performs the second one
       H.zombies.push_back(Harness::Zombie{b->p, b->usable, b->heap, T->prog, false});
       void* p1 = b->p; delete b; mi_free(p1); return;
+    }
+    if (op.b & 4) {
+      // first free the block with the highest address among the live neighbours in the page (the page's last block when it is
+      // full): the freed block's link then points at it, at the very end of the page
+      Block* last = nullptr;
+      for (auto& kv : H.live) { Block* o = kv.second; if (o != b && o->prog == T->prog && o->heap == b->heap && (((uintptr_t)o->p ^ (uintptr_t)b->p) >> 16) == 0 && o->usable == b->usable && o->p > b->p && (!last || o->p > last->p) && o->slot >= 0 && !g_busy_pub(o->slot)) last = o; }
+      if (last) {
+        int others = 0; for (auto& kv : H.live) { Block* o = kv.second; if (o != b && o != last && o->prog == T->prog && o->heap == b->heap && (((uintptr_t)o->p ^ (uintptr_t)b->p) >> 16) == 0 && o->usable == b->usable) others++; }
+        if (others > 0) { block_verify(last, "before free"); model_remove(last); H.slots[last->slot] = nullptr; void* lp = last->p; delete last; mi_free(lp); }
+      }
     }
     const size_t used0 = heap_used_sum(h, nullptr);
     void* p = b->p; delete b;
